@@ -661,14 +661,9 @@ class ExprMixin:
 
     def entails(self, st, fact) -> bool:
         """Cheap in-process check that the path condition implies `fact` (unknown -> False)."""
-        sol = z3.Solver()
-        sol.set("timeout", 200)
-        sol.set("rlimit", 300000)
-        for p in st.pc:
-            if not z3.is_quantifier(p):
-                sol.add(p)
-        sol.add(z3.Not(fact))
-        return sol.check() == z3.unsat
+        from . import quick
+
+        return quick.entails(st.pc, fact)
 
     def deopt(self, v: Val, st, node=None) -> Val:
         """Use of an Optional value where a value is required: obligation `is not None`.
